@@ -286,6 +286,23 @@ func (ex *Exec) intrinsic(f *ssa.Function) intrinsicFn {
 			ex.usedAssume["A-ATOMIC: goroutine bodies verified as separate steps"] = true
 			return callOut{}
 		}
+	case "(*golang.org/x/sync/errgroup.Group).Wait":
+		return func(ex *Exec, s *State, instr ssa.Instruction, args []Val) callOut {
+			// trusted: blocks until the group's goroutines have returned; the
+			// result (first non-nil error, or nil) is unconstrained
+			if p, ok := args[0].(PtrV); ok {
+				ex.nilCheck(s, instr, p.Base)
+			}
+			e := s.declare(ex.g.fresh("gerr"), SIface)
+			ex.assumeWF(s, e, nil)
+			ex.usedAssume["A-ERRGROUP: errgroup.Group.Wait returns an unconstrained error value (nil after a clean shutdown)"] = true
+			return callOut{v: Scalar{e}}
+		}
+	case "(time.Duration).Seconds":
+		return func(ex *Exec, s *State, instr ssa.Instruction, args []Val) callOut {
+			// floating point is not modelled: an unconstrained value
+			return callOut{v: Scalar{s.declare(ex.g.fresh("secs"), SBV(64))}}
+		}
 	case "context.WithCancel":
 		return func(ex *Exec, s *State, instr ssa.Instruction, args []Val) callOut {
 			// trusted: a derived context and its cancel function (non-nil)
